@@ -95,7 +95,19 @@ func (c *Check) expiredBatchRules(prefix string, which map[string]bool) {
 		}
 		iDeq9, iDeq11 := idx(isStore("Delete", "0x09")), idx(isStore("Delete", "0x11"))
 		iEnq := idx(isStore("Set", "0x10"))
-		iDelCtx := idx(isStore("Delete", "0x08"))
+		// (a removal the callee performs only under a condition that this path has refuted — "unless already completed" for
+		// a context the path knows to be COMPLETED — does not happen on this path)
+		iDelCtx := idx(func(e *Eff) bool {
+			if !(e.Kind == "store" && e.Op == "Delete" && e.Family == "0x08") {
+				return false
+			}
+			for _, g := range e.Guards {
+				if af.Holds(g.T, g.Neg) {
+					return false
+				}
+			}
+			return true
+		})
 		iScan := idx(func(e *Eff) bool { return e.Kind == "store" && e.Op == "Iter" && e.Family == "0x15" })
 		iClean := idx(func(e *Eff) bool { return e.Kind == "store" && e.Op == "Iter" && e.Family == "0x13" })
 		iComplete := -1
